@@ -491,3 +491,50 @@ def suite_size_limit_headers(report, prop="C03"):
                                    "the client set no maximum packet size, the server starts a PUBLISH of the protocol's maximum size (remaining length 268435455): refused with " + a.split(" ")[0], eng + ["# impl: " + a[:200]]))
     report.obligation("corr:size-limit", "correspondence", corr_ok, f"{len(reqs) + 1} headers at the boundaries of the length encoding and of the maximum in force")
     report.obligation("mon:size-limit", "monitor", mon_ok, "refused exactly when the announced total exceeds the maximum in force (none = the protocol's 268,435,460)")
+
+
+def suite_engine_inbound_size(report, prop="C03"):
+    """which maximum packet size is in force for inbound packets inside the engine: the configured one under MQTT 5 (the
+    CONNECT announces it), none under MQTT 3.1.1 (its CONNECT cannot announce one, so a server that sends a larger packet
+    follows the protocol and must not be reported as violating it).  A complete QoS 0 PUBLISH of 100 bytes, limit 64."""
+    from suites_engine import canon
+    body = bytes([0x00, 0x03]) + b"t/1"
+    scripts = []
+    for v in ("5", "311"):
+        connack = "x20020000" if v == "311" else "x2003000000"
+        for mps in (None, 64, 100, 99):
+            payload = bytes(100 - 2 - len(body) - (1 if v == "5" else 0))
+            pkt = bytes([0x30, 100 - 2]) + body + (b"\x00" if v == "5" else b"") + payload
+            assert len(pkt) == 100
+            opts = "ka=0 cid=x63" + (f" mps={mps}" if mps is not None else "")
+            sc = ["session.reset", f"eng.new v={v} policy=all | {opts}", "eng.open t=0 deadline=30000", "eng.svc t=0 cap=4096 prefill=0", "eng.wc t=0",
+                  f"eng.data t=0 b={connack}", f"eng.data t=1 b={hexs(pkt)}"]
+            in_force = mps if (v == "5" and mps is not None) else None
+            scripts.append((sc, v, mps, in_force is not None and 100 > in_force))
+    reqs = [l for sc, _, _, _ in scripts for l in sc]
+    impl = harness_batch(reqs)
+    model = driver_batch(reqs)
+    corr_ok, mon_ok, pos = True, True, 0
+    for sc, v, mps, want_err in scripts:
+        a, b = impl[pos + len(sc) - 1], model[pos + len(sc) - 1]
+        for i in range(len(sc)):
+            if canon(impl[pos + i]) != canon(model[pos + i]):
+                corr_ok = False
+                report.add_finding(Finding(prop, "corr:inbound-size-in-force", {"clause": "model-vs-impl", "verb": sc[i].split(" ")[0]},
+                                           "inbound size limit inside the engine: implementation and model disagree",
+                                           sc[:i + 1] + ["# impl:  " + impl[pos + i][:200], "# model: " + model[pos + i][:200]], has_input=False))
+                break
+        pos += len(sc)
+        report.case("|".join(sc))
+        report.traces_validated += 1
+        got_err = a.startswith("res=err")
+        report.count(f"inbound-size.v{v}." + ("refused" if got_err else "accepted"))
+        if got_err != want_err:
+            mon_ok = False
+            what = (f"MQTT {'3.1.1' if v == '311' else '5'}, configured maximum packet size {mps}: a legal 100-byte PUBLISH from the server is " +
+                    ("refused with " + a.split(" ")[0] + (" although a 3.1.1 CONNECT cannot announce a maximum (the server follows the protocol)" if v == "311" else "")
+                     if got_err else "accepted although it exceeds the maximum the CONNECT announced"))
+            report.add_finding(Finding(prop, "mon:inbound-size-in-force", {"clause": "legal-size-refused" if got_err else "oversize-accepted", "version": v},
+                                       what, sc + ["# impl: " + a[:200]]))
+    report.obligation("corr:inbound-size-in-force", "correspondence", corr_ok, f"{len(scripts)} scripted connections (2 versions x configured maximum none / below / at / just below the packet)")
+    report.obligation("mon:inbound-size-in-force", "monitor", mon_ok, "the configured maximum is enforced on inbound packets exactly where the CONNECT can announce it (MQTT 5)")
